@@ -165,8 +165,14 @@ def child_population(case):
                     for host in rng.sample(sorted(truth), max(1, len(truth) // 5)):
                         t = truth[host]
                         p = by_host[host]
-                        how = rng.choice(('bad', 'forget', 'reverify', 'unbad'))
-                        if how == 'bad':
+                        how = rng.choice(('bad', 'forget', 'reverify', 'unbad', 'move', 'move'))
+                        if how == 'move':
+                            # re-verified at another address (a host name now resolving elsewhere): _verify_peer overwrites ip_addr
+                            if t['kind'] in ('host', 'badhost'):
+                                p.ip_addr = t['ip'] = rng.choice(ips)
+                                p.last_good = Clock.now - 5
+                                bump('peers_reverified_at_another_address')
+                        elif how == 'bad':
                             p.bad = t['bad'] = True
                         elif how == 'unbad':
                             p.bad = t['bad'] = False
@@ -379,6 +385,7 @@ def run(tier, seed, replay=None):
     rep.floor('state_changes_between_requests', c['state_changes_between_requests'], 200)
     rep.floor('peer_tuples_checked', c['peer_tuples_checked'], 20000)
     rep.floor('lists_with_full_bucket', c['lists_with_full_bucket'], 100)
+    rep.floor('peers_reverified_at_another_address', c['peers_reverified_at_another_address'], 50)
     rep.floor('lists_with_10+_onion', c['lists_with_10+_onion'], 100)
     rep.floor('own_identities_advertised', c['own_identities_advertised'], 100)
     rep.floor('peers_built', c['peers_built'], 5000)
